@@ -5,9 +5,12 @@ import (
 	"encoding/hex"
 	"encoding/json"
 	"fmt"
+	"github.com/bartventer/httpcache/verifsim/kit"
 	"os"
+	"runtime"
 	"sort"
 	"strings"
+	"sync/atomic"
 	"testing"
 	"testing/cryptotest"
 	"testing/synctest"
@@ -41,33 +44,71 @@ type Found struct {
 }
 
 type WorkerOut struct {
-	Runs        int            `json:"runs"`
-	Steps       uint64         `json:"steps"`
-	VirtNs      float64        `json:"virt_ns"`
-	WallS       float64        `json:"wall_s"`
-	Faults      map[string]int `json:"faults"`
-	Probes      map[string]int `json:"probes"`
-	Judgements  map[string]int `json:"judgements"`
-	OtherHits   map[string]int `json:"other_hits"`
-	Sigs        []string       `json:"sigs"`
-	Nontrivial  int            `json:"nontrivial"`
-	Found       []Found        `json:"found"`
-	Ambiguous   int            `json:"ambiguous"`
-	Deadlocks   int            `json:"deadlocks"`
-	Samples     []any          `json:"samples"`
-	Backends    map[string]int `json:"backends"`
-	Exchanges   int            `json:"exchanges"`
-	StoreOps    int            `json:"store_ops"`
-	OriginCalls int            `json:"origin_calls"`
-	Inconclusive int           `json:"inconclusive"`
-	Extra       map[string]any `json:"extra,omitempty"`
+	Runs         int            `json:"runs"`
+	Steps        uint64         `json:"steps"`
+	VirtNs       float64        `json:"virt_ns"`
+	WallS        float64        `json:"wall_s"`
+	Faults       map[string]int `json:"faults"`
+	Probes       map[string]int `json:"probes"`
+	Judgements   map[string]int `json:"judgements"`
+	OtherHits    map[string]int `json:"other_hits"`
+	Sigs         []string       `json:"sigs"`
+	Nontrivial   int            `json:"nontrivial"`
+	Found        []Found        `json:"found"`
+	Ambiguous    int            `json:"ambiguous"`
+	Deadlocks    int            `json:"deadlocks"`
+	Samples      []any          `json:"samples"`
+	Backends     map[string]int `json:"backends"`
+	Exchanges    int            `json:"exchanges"`
+	StoreOps     int            `json:"store_ops"`
+	OriginCalls  int            `json:"origin_calls"`
+	Inconclusive int            `json:"inconclusive"`
+	Extra        map[string]any `json:"extra,omitempty"`
 }
 
 // Exec runs one scenario in a fresh bubble and judges it.
+// execActive is true while a scenario executes inside its bubble (not while it is generated or judged).
+var execActive atomic.Bool
+
+// SpinLimit is how long (real time) an execution may go without a single scheduling step.
+const SpinLimit = 12 * time.Second
+
+// spinWatch runs outside every bubble, on the real clock. A goroutine of the library that loops without
+// ever reaching a seam freezes the simulation (nothing parks, virtual time cannot advance); no in-bubble
+// oracle can see that. The watchdog reports it with all stacks and ends the process; the driver replays the
+// recorded scenario to confirm and reports the hang (C10).
+func spinWatch() {
+	last, since := kit.Beat.Load(), time.Now()
+	for {
+		time.Sleep(500 * time.Millisecond)
+		if b := kit.Beat.Load(); b != last || !execActive.Load() {
+			last, since = b, time.Now()
+			continue
+		}
+		if time.Since(since) < SpinLimit {
+			continue
+		}
+		buf := make([]byte, 1<<20)
+		n := runtime.Stack(buf, true)
+		var spinning []string
+		for _, blk := range strings.Split(string(buf[:n]), "\n\n") {
+			head, _, _ := strings.Cut(blk, "\n")
+			if (strings.Contains(head, "[running") || strings.Contains(head, "[runnable")) && hasSUTFrame(blk) {
+				spinning = append(spinning, blk)
+			}
+		}
+		fmt.Printf("sim: SPIN DETECTED: no scheduling step for %s while a scenario was executing\n", SpinLimit)
+		fmt.Printf("goroutines of the library that are running without reaching a seam:\n%s\n", strings.Join(spinning, "\n\n"))
+		os.Exit(3)
+	}
+}
+
 func Exec(t *testing.T, scn *Scenario) (r *Run, jd *Judged) {
 	// crypto/rand (GCM nonces, temporary file names) is part of the execution: seed it
 	cryptotest.SetGlobalRandom(t, scn.Seed^scn.SchedSeed)
 	func() {
+		execActive.Store(true)
+		defer execActive.Store(false)
 		defer func() {
 			if p := recover(); p != nil {
 				if r == nil {
@@ -167,6 +208,7 @@ func RunWorker(t *testing.T) {
 	if err := json.Unmarshal(raw, &job); err != nil {
 		t.Fatal(err)
 	}
+	go spinWatch()
 	switch job.Mode {
 	case "replay":
 		replayMode(t, &job)
